@@ -1,5 +1,5 @@
 (* C17 — over-long documents are rejected or truncated exactly (theorems are added as they close) *)
-From SA Require Import Base.Prelude Codec.Codec Index.Index Index.Fast Index.Fast_Proofs Index.Truncate Index.Index_Spec.
+From SA Require Import Base.Prelude Codec.Codec Index.Index Index.Fast Index.Fast_Proofs Index.Truncate Index.Truncate_Proofs Index.Index_Spec Index.Index_Proofs2.
 Open Scope N_scope.
 (* truncate=True is by construction the index of the first MAX_POSN tokens of every document *)
 Theorem C17_truncate_is_index_of_prefix : forall bs docs,
@@ -16,4 +16,23 @@ Qed.
 Theorem C17_fast_model_is_model : forall tr bs docs, index_g tr bs docs = index tr bs docs.
 Proof. exact index_g_eq. Qed.
 Print Assumptions C17_fast_model_is_model.
+(* an over-long document is rejected, whatever the batch size and wherever it sits (total size below 2^61 tokens:
+   a bound of the kernels' fuel model, not of the property) *)
+Theorem C17_overlong_rejected : forall docs bs, N.of_nat (length docs) < 2 ^ 28 ->
+  Exists (fun d => MAX_POSN < N.of_nat (length d)) docs ->
+  N.of_nat (length (concat docs)) < 2 ^ 61 ->
+  index false bs docs = AExc ValueError.
+Proof. exact C17_reject. Qed.
+Print Assumptions C17_overlong_rejected.
+
+(* with truncate=True indexing always succeeds and the result is a correct index of the truncated documents:
+   every answer is that of the first 262143 tokens of each document (by C01/C02/C03/C05 on index_ok) *)
+Theorem C17_truncate_answers_like_prefix : forall docs bs, N.of_nat (length docs) < 2 ^ 28 ->
+  exists ix, index_opt true bs docs = AOk ix /\ index_ok (truncate_docs docs) ix.
+Proof. exact C17_truncate. Qed.
+Print Assumptions C17_truncate_answers_like_prefix.
+
+Theorem C17_within_limit_truncate_is_noop : forall docs, wf_docs docs -> forall bs, index_opt true bs docs = index_opt false bs docs.
+Proof. exact C17_unaltered. Qed.
+
 Example C17_limit_value : MAX_POSN = 262143. Proof. reflexivity. Qed.
